@@ -19,7 +19,8 @@ RULE = ("cases i=0..N-1 from rng(seed, 1, 0, i): 8 edge kinds (odometry r2/r3/se
         "quaternions w<0, w=0, 180deg, identity, near-identity; offsets with rotation); every 10th case is an in-situ optimizer run "
         "whose calc_jacobians calls are observed through a wrapper; every 10th case is an operand history (estimate / vertex pose / offset replaced or modified in place "
         "between calls on one live edge; a third of the steps are small nudges of 1e-9..1e-3 relative size, a third of the histories far from the origin); every 5th direct case holds the returned Jacobians while two more edges of the same type are linearised (they must not change). distinct = fingerprint of rounded operands; non-trivial = "
-        "some operand has a non-identity rotation and a non-zero translation (R^n edges: non-zero translation).")
+        "some operand has a non-identity rotation and a non-zero translation (R^n edges: non-zero translation)."
+        " later additions: partly coinciding operands, integer-dtype information, histories on loader-built edges, pose-level Jacobians scaled in place by a client beforehand.")
 PLAN = {
     "quick": {"cases": 6000, "soft_s": 60, "min_nontrivial": 500,
               "require": ["eval:jac-vs-AD", "eval:jac-vs-FD-of-real-error", "eval:returned-jacobians-stay-valid", "kind:odo-se3", "kind:lm-se3-r3", "kind:lm-se2-r2", "insitu_calls_observed",
